@@ -221,6 +221,10 @@ type listKey struct {
 type frame struct {
 	label string
 	idx   int
+	// what the direct children of this invocation returned at top level (the node, or the
+	// list and its elements): RightTrim may only ever write to those
+	childTop   map[interface{}]bool
+	childLists map[*parsley.Node]bool // by backing array: an earlier, shorter list may share it
 }
 
 type c07Violation struct {
@@ -386,6 +390,13 @@ func (m *monitor) checkAll() {
 		}
 		cu := m.culprit()
 		if field == "readerPos" && cu.label == "rtrim" && m.knownOpen {
+			if !cu.childTop[n] {
+				// the open finding is about the node RightTrim's operand returned (or the
+				// elements of the returned list); this node lies deeper
+				m.viol = &c07Violation{class: "frozen:readerPos", culprit: cu.label, field: field,
+					detail: fmt.Sprintf("readerPos of a %s node returned earlier (token %q, %d..%d) changed to %d while parser %q was running, and the node is NOT the result its operand had just returned (nor an element of the returned list) but a node below it", old.typ, old.token, old.pos, old.rpos, cur.rpos, cu.label)}
+				return
+			}
 			if by, shared := m.reused[n]; shared {
 				// not the open finding's history: the node is shared because an un-memoised
 				// sequence parser handed out the same object twice
@@ -412,7 +423,7 @@ func (m *monitor) checkAll() {
 		cu := m.culprit()
 		// RightTrim replaces an EmptyNode element by another EmptyNode (value type): the
 		// same in-place SetReaderPos mechanism
-		if cu.label == "rtrim" && m.knownOpen && i >= 0 && old[i].ptr == nil && cur[i].ptr == nil && strings.HasPrefix(old[i].repr, "ast.EmptyNode") && strings.HasPrefix(cur[i].repr, "ast.EmptyNode") {
+		if cu.label == "rtrim" && m.knownOpen && cu.childLists[k.p] && i >= 0 && old[i].ptr == nil && cur[i].ptr == nil && strings.HasPrefix(old[i].repr, "ast.EmptyNode") && strings.HasPrefix(cur[i].repr, "ast.EmptyNode") {
 			m.known++
 			old[i] = cur[i]
 			continue
@@ -476,7 +487,7 @@ func (r recP) Parse(ctx *parsley.Context, lrc data.IntMap, pos parsley.Pos) (par
 		m.outerMemo++
 	}
 	m.checkAll()
-	m.stack = append(m.stack, frame{r.label, r.idx})
+	m.stack = append(m.stack, frame{label: r.label, idx: r.idx})
 	n, cp, err := r.p.Parse(ctx, lrc, pos)
 	if nl, ok := n.(ast.NodeList); ok && len(nl) > 64 {
 		panic(discard{"list-budget"})
@@ -502,6 +513,25 @@ func (r recP) Parse(ctx *parsley.Context, lrc data.IntMap, pos parsley.Pos) (par
 	m.checkAll()
 	m.stack = m.stack[:len(m.stack)-1]
 	m.depth--
+	// tell the caller's frame what it received at top level
+	if len(m.stack) > 0 && n != nil {
+		pf := &m.stack[len(m.stack)-1]
+		if pf.childTop == nil {
+			pf.childTop, pf.childLists = map[interface{}]bool{}, map[*parsley.Node]bool{}
+		}
+		if nl, ok := n.(ast.NodeList); ok {
+			if len(nl) > 0 {
+				pf.childLists[&nl[0]] = true
+			}
+			for _, e := range nl {
+				if isPtrNode(e) {
+					pf.childTop[e] = true
+				}
+			}
+		} else if isPtrNode(n) {
+			pf.childTop[n] = true
+		}
+	}
 	if len(m.nodeOrder) > 1500 {
 		panic(discard{"node-budget"})
 	}
@@ -513,6 +543,8 @@ func (m *monitor) wrap(idx int, n *GNode, layer string, p parsley.Parser) parsle
 	switch n.Op {
 	case "seq", "seqtry", "seqfoa", "many", "many1", "sepby", "sepby1", "sentence":
 		fresh = n.Arg != "single"
+	case "rune", "urune", "op", "int", "float", "str", "char", "bool", "nil", "word", "regexp", "dur":
+		fresh = true // a terminal parser builds its node itself
 	}
 	if layer == "inner" {
 		return recP{m: m, label: n.Op, idx: idx, inner: true, fresh: fresh, p: p}
